@@ -381,6 +381,7 @@ static void mode_body(int argc, char **argv) {
 /* a chunk of one direction: which messages begin / end inside it, and which first lines it completes */
 typedef struct pchunk { const uint8_t *d; uint32_t n; uint8_t starts, ends, lines, lo, mstarts; } pchunk;   /* mstarts: messages that begin inside the chunk but not at its first byte */
 static struct { int N; int expect_pipelined; int partial_line_class; int partial_res_class; char desc[200]; } PT;
+static int PAIR_FREED;   /* > 0: auto-destroy on, htp_connp_tx_freed() after every PAIR_FREED-th completed response; pairing judged from the records taken at TRANSACTION_COMPLETE */
 static void pair_inspect(htp_connp_t *c, hx_obs *o, void *ctx) {
     (void) ctx;
     size_t n = htp_list_size(c->conn->transactions);
@@ -411,10 +412,30 @@ static void pair_inspect(htp_connp_t *c, hx_obs *o, void *ctx) {
             hx_verdict_add("C04", got ? "pipelined_spurious" : "pipelined_missed", "%s: pipelining indicator is %d, schedule says %d", PT.desc, got, PT.expect_pipelined);
     }
 }
+static void pair_inspect_freed(htp_connp_t *c, hx_obs *o, void *ctx) {
+    (void) ctx;
+    if (o->ntx != PT.N) { hx_verdict_add("C04", "tx_count", "%s: %d exchanges sent, %d transactions created", PT.desc, PT.N, o->ntx); return; }
+    for (int i = 0; i < PT.N; i++) {
+        const hx_txrec *r = &o->tx[i];
+        if (r->n_tx_complete != 1 || r->dumpz.n == 0) { hx_verdict_add("C04", "incomplete", "%s: transaction %d was not completed exactly once (%d)", PT.desc, i, r->n_tx_complete); continue; }
+        static hx_buf z; hb_reset(&z); hb_put(&z, r->dumpz.p, r->dumpz.n); hb_term(&z);
+        char want[48]; snprintf(want, sizeof want, "uri=\"/id-%d\"", i + 1);
+        if (!strstr((char *) z.p, want)) hx_verdict_add("C04", "order", "%s: transaction %d does not carry request /id-%d", PT.desc, i, i + 1);
+        snprintf(want, sizeof want, "n=\"X-Id\" v=\"%d\"", i + 1);
+        if (!strstr((char *) z.p, want)) hx_verdict_add("C04", "pairing", "%s: transaction %d (request /id-%d) got a response whose X-Id is not %d", PT.desc, i, i + 1, i + 1);
+        char wb[16]; snprintf(wb, sizeof wb, "id-%d", i + 1);
+        if (r->body[1].n != strlen(wb) || memcmp(r->body[1].p, wb, r->body[1].n)) hx_verdict_add("C04", "pairing_body", "%s: transaction %d got a response body that is not %s", PT.desc, i, wb);
+    }
+    int got = (c->conn->flags & HTP_CONN_PIPELINED) != 0;
+    if (got != PT.expect_pipelined && !PT.partial_line_class && !PT.partial_res_class)
+        hx_verdict_add("C04", got ? "pipelined_spurious" : "pipelined_missed", "%s: pipelining indicator is %d, schedule says %d", PT.desc, got, PT.expect_pipelined);
+}
 static pchunk PQ[24], PR[24]; static int NPQ, NPR;
 static uint8_t psched[64];
 static void pair_exec(int len) {
-    hx_script_init(&S); S.inspect = pair_inspect; S.label = PT.desc;
+    hx_script_init(&S); S.inspect = PAIR_FREED ? pair_inspect_freed : pair_inspect; S.label = PT.desc;
+    if (PAIR_FREED) S.cfg.auto_destroy = 1;
+    int res_done = 0;
     /* what the schedule implies for the indicator, computed without looking at the parser */
     int qi = 0, ri = 0, expect = 0, partial = 0, partial_res = 0;
     unsigned res_started = 0, req_started_early = 0, line_done = 0, res_began_while_open = 0, res_merged_open = 0, res_line_done = 0;
@@ -437,6 +458,7 @@ static void pair_exec(int len) {
                 if (j + 1 < PT.N && (req_started_early >> (j + 1) & 1) && !(line_done >> (j + 1) & 1)) res_began_while_open |= 1u << (j + 1);
             }
             hx_script_add(&S, OP_S, c->d, c->n);
+            if (PAIR_FREED) { int before = res_done; for (int j = 0; j < PT.N; j++) if (c->ends >> j & 1) res_done++; if (res_done / PAIR_FREED != before / PAIR_FREED) hx_script_add(&S, OP_FREED, NULL, 0); }
         }
     }
     hx_script_add(&S, OP_CLOSE, NULL, 0);
@@ -492,17 +514,20 @@ static int build_chunks(pchunk *out, hx_buf *stream, hx_buf *msgs, int N, const 
 static void mode_pair(int argc, char **argv) {
     int thorough = !strcmp(hx_tier, "thorough");
     int maxN = atoi(hx_arg(argc, argv, "--maxn", "3"));
+    PAIR_FREED = atoi(hx_arg(argc, argv, "--freed", "0"));
+    if (maxN > 4) maxN = 4;
     long combo = 0;
     static hx_buf SQ, SR;
     for (int N = 1; N <= maxN; N++) {
         int nqf = 3, nsf = 2;
-        int ncut = (N <= 2 || thorough) ? 4 : 2;          /* N=3 quick: whole or mid-line only */
+        int ncut = N == 4 ? 1 : (N <= 2 || thorough) ? 4 : 2;          /* N=3 quick: whole or mid-line only; N=4: whole messages */
         long nframe = 1; for (int i = 0; i < N; i++) nframe *= nqf * nsf;
         if (N == 3) nframe = thorough ? 12 : 3;            /* fixed framing mixes for N=3 */
+        if (N == 4) nframe = 2;
         for (long fm = 0; fm < nframe; fm++) {
-            static hx_buf mq[3], mr[3]; int qf[3], sf[3]; long t = fm;
+            static hx_buf mq[4], mr[4]; int qf[4], sf[4]; long t = fm;
             for (int i = 0; i < N; i++) {
-                if (N == 3) { qf[i] = (int) ((fm + i) % 3); sf[i] = (int) ((fm / 3 + i) % 2); }
+                if (N >= 3) { qf[i] = (int) ((fm + i) % 3); sf[i] = (int) ((fm / 3 + i) % 2); }
                 else { qf[i] = (int) (t % nqf); t /= nqf; sf[i] = (int) (t % nsf); t /= nsf; }
                 hb_reset(&mq[i]); hb_reset(&mr[i]);
                 char idb[16]; snprintf(idb, sizeof idb, "id-%d", i + 1); int z[1] = { (int) strlen(idb) };
@@ -517,7 +542,7 @@ static void mode_pair(int argc, char **argv) {
             for (long ck = 0; ck < nchunkings; ck++) {
                 long id = combo++;
                 if (id % hx_shard_n != hx_shard_i || hx_deadline_hit()) continue;
-                long u = ck; int iq[3], ir[3], bq[3] = { 1, 1, 1 }, br[3] = { 1, 1, 1 };
+                long u = ck; int iq[4], ir[4], bq[4] = { 1, 1, 1, 1 }, br[4] = { 1, 1, 1, 1 };
                 for (int i = 0; i < N; i++) { iq[i] = (int) (u % ncut); u /= ncut; }
                 for (int i = 0; i < N; i++) { ir[i] = (int) (u % ncut); u /= ncut; }
                 for (int i = 0; i < N - 1; i++) { bq[i] = (int) (u & 1); u >>= 1; }
@@ -525,7 +550,7 @@ static void mode_pair(int argc, char **argv) {
                 NPQ = build_chunks(PQ, &SQ, mq, N, iq, bq);
                 NPR = build_chunks(PR, &SR, mr, N, ir, br);
                 PT.N = N;
-                snprintf(PT.desc, sizeof PT.desc, "N=%d framings q=%d%d%d s=%d%d%d chunking #%ld", N, qf[0], N > 1 ? qf[1] : 9, N > 2 ? qf[2] : 9, sf[0], N > 1 ? sf[1] : 9, N > 2 ? sf[2] : 9, ck);
+                snprintf(PT.desc, sizeof PT.desc, "%sN=%d framings q=%d%d%d s=%d%d%d chunking #%ld", PAIR_FREED ? "auto-destroy + tx_freed: " : "", N, qf[0], N > 1 ? qf[1] : 9, N > 2 ? qf[2] : 9, sf[0], N > 1 ? sf[1] : 9, N > 2 ? sf[2] : 9, ck);
                 if (id % 20000 == 0) hx_emit_sample(PT.desc);
                 pair_dfs(0, 0, 0);
             }
